@@ -1,5 +1,6 @@
 import Cdecao.Proofs.HungFinal
 import Cdecao.Proofs.HungTotal
+import Cdecao.Proofs.SpecExec
 /-! # C07 — the matching routine returns a maximum-weight constrained perfect matching
 
 Model: `H2.run` (hungarian.rs, same iteration, same tie-breaking). `probOf I` is the bipartite
@@ -20,5 +21,16 @@ theorem C07_partial (I : Inp) (hsq : #(probOf I).X = #(probOf I).Y) (mm : Vec Na
     (no `unwrap` on `None`, no fuel exhaustion) -/
 theorem C07_total (I : Inp) (τ : Nat → Nat) (ha : Admits I τ) : ∃ r, run I = some r :=
   hung_total I τ ha
+
+/-- in the form the check evaluates (`perfectb`, list-sum `weight`) on the real routine's output -/
+theorem C07_exec (I : Inp) (hsq : #(probOf I).X = #(probOf I).Y) (mm : Vec Nat) (sc : Int)
+    (h : run I = some (mm, sc)) :
+    HSpec.perfectb I mm.get = true ∧ sc = HSpec.weight I mm.get ∧
+    ∀ σ', HSpec.perfectb I σ' = true → HSpec.weight I σ' ≤ sc := by
+  obtain ⟨h1, h2, h3⟩ := hung_partial I hsq mm sc h
+  refine ⟨(HSpec.perfectb_iff I _).2 h1, by rw [HSpec.weight_eq]; exact h2, ?_⟩
+  intro σ' hσ
+  rw [HSpec.weight_eq]
+  exact h3 σ' ((HSpec.perfectb_iff I σ').1 hσ)
 
 end Props
